@@ -168,28 +168,31 @@ def name_pool(thorough, seed):
 
 
 def name_class(n):
+    """Label of a column name by the first applicable known cause (labels only)."""
+    import keyword
+    import unicodedata
+
     if n == "":
         return "empty-name"
     if n.endswith("\\") and (len(n) - len(n.rstrip("\\"))) % 2 == 1:
         return "name-ending-in-backslash"
+    if keyword.iskeyword(n):
+        return "python-keyword"
+    if any(re.match(r"\w", c) and not ("_" + c).isidentifier() for c in n):
+        return "word-character-not-allowed-in-identifiers"
+    if any(re.match(r"\w", c) and unicodedata.normalize("NFKC", c) != c for c in n):
+        return "character-changed-by-unicode-normalisation"
     if "\\" in n:
         return "name-with-backslash"
     if any(c in n for c in "\"'"):
         return "name-with-quote-character"
-    if any(c in n for c in "\n\r\t"):
+    if any(c in n for c in "\n\r\t\u2028"):
         return "name-with-control-whitespace"
     if any(c in n for c in "(){}[]"):
         return "name-with-bracket"
-    import keyword
-    import unicodedata
-
-    if keyword.iskeyword(n):
-        return "python-keyword"
-    if n.isidentifier() and unicodedata.normalize("NFKC", n) != n:
-        return "identifier-changed-by-unicode-normalisation"
     if n.isidentifier():
         return "identifier"
-    return "other" if len(n) > 3 else f"name={n!r}"
+    return "other" if len(n) > 1 else f"name={n!r}"
 
 
 def col(i):
@@ -656,11 +659,13 @@ def w_spans_arbitrary(args):
             parser.get_terms(s)
         except FormulaSyntaxError as e:
             msg = str(e)
-            if "⧛" in msg and "\n\n" in msg and "⧛" not in s and "⧚" not in s:
-                ctx = ANSI.sub("", msg.split("\n\n", 1)[1])
+            clean = ANSI.sub("", msg)
+            if "⧛" in clean and "⧛" not in s and "⧚" not in s and "\x1b" not in s and len(clean) > len(s) + 4:
+                # message + blank line + the source with one marked span (two marker characters)
+                ctx = clean[-(len(s) + 2) :]
                 acc.case(("error-context", s), True)
                 a, b = ctx.find("⧛"), ctx.find("⧚")
-                if not (0 <= a < b and ctx.replace("⧛", "", 1).replace("⧚", "", 1) == s):
+                if not (clean[-(len(s) + 4) : -(len(s) + 2)] == "\n\n" and 0 <= a < b and ctx.replace("⧛", "", 1).replace("⧚", "", 1) == s):
                     w = {"string": s, "message": msg[:300], "code": ERRCTX_REPRO.format(s=s)}
                     acc.fail("C15.spans.error-context", "context-is-not-the-source", w, f"error context of {s!r} is {ctx!r}")
         except Exception:
@@ -680,14 +685,15 @@ from formulaic.errors import FormulaSyntaxError
 s = {s!r}
 try:
     DefaultFormulaParser().get_terms(s)
-    ctx = None
+    msg = None
 except FormulaSyntaxError as e:
-    ctx = re.sub(r"\\x1b\\[[0-9;]*m", "", str(e).split("\\n\\n", 1)[1]) if "\\n\\n" in str(e) else None
+    msg = re.sub(r"\\x1b\\[[0-9;]*m", "", str(e))
 except Exception:
-    ctx = None
-if ctx is not None:
+    msg = None
+if msg is not None and "\\u29db" in msg:
+    ctx = msg[-(len(s) + 2):]
     a, b = ctx.find("\\u29db"), ctx.find("\\u29da")
-    assert 0 <= a < b and ctx.replace("\\u29db", "", 1).replace("\\u29da", "", 1) == s, (s, ctx)
+    assert msg[-(len(s) + 4):-(len(s) + 2)] == "\\n\\n" and 0 <= a < b and ctx.replace("\\u29db", "", 1).replace("\\u29da", "", 1) == s, (s, msg)
 '''
 
 
